@@ -802,6 +802,12 @@ def items(tier):
                 if ki == 0 and "value" in combo and mesh in ((3, 2, 0), (2, 2, 2)):
                     add("fc-conv", "%s-%s-%s-again" % (_tag(mesh), _ktag(kern), _btag(bcs, dim)), mesh=mesh, kernel=kern,
                         bcs=bcs, again=True)
+    # ---- a kernel given as a 1-D array acts along x (missing trailing axes have size one, as for 2-D kernels on 3-D domains)
+    for mesh, kern in [((3, 2, 0), (3,)), ((2, 2, 0), (3,)), ((3, 2, 0), (5,))] + ([] if q else [((2, 2, 2), (3,))]):
+        dim = 3 if mesh[2] else 2
+        for combo in [("symmetric",) * 6, ("edge", "value", "wrap", "symmetric", "value", "edge")]:
+            bcs = dict(zip(SIDES[:2 * dim], combo))
+            add("fc-conv", "%s-%s-%s" % (_tag(mesh), _ktag(kern), _btag(bcs, dim)), mesh=mesh, kernel=kern, bcs=bcs)
     # ---- pad larger than the domain: the same rule on both sides of every axis, and mixed rules
     wide = [((1, 3, 0), (5, 3)), ((2, 2, 0), (7, 3)), ((3, 1, 0), (3, 5))] + ([] if q else [((2, 2, 0), (7, 7)), ((1, 1, 0), (5, 5)),
                                                                                           ((2, 2, 2), (7, 3, 3))])
